@@ -192,6 +192,7 @@ func (e *Exec) builtinCopy(fr *frame, st *State, c *ssa.CallCommon, dst, src Val
 	arr := e.ctx.fresh("cparr", arraySort(sInt, e.ctx.sortOf(el)))
 	e.setHeap(st, h, ite(lt("0", n), sto(ht, slRef(dst.T), arr), ht))
 	nht := e.heapTerm(st, h)
+	e.ctx.assume(fmt.Sprintf("(forall ((s Slice) (i Int)) (! (=> (not (= (sl_ref s) %s)) (= %s %s)) :pattern (%s)))", slRef(dst.T), e.elemAt(nht, el, "s", "i"), e.elemAt(ht, el, "s", "i"), e.elemAt(nht, el, "s", "i")))
 	pat := ""
 	if !isStr {
 		pat = " :pattern (" + sAt("j") + ")"
